@@ -17,10 +17,10 @@ Q == Tier = "quick"
 MaxT       == IF Q THEN 6 ELSE 8
 MaxSamples == IF Q THEN 3 ELSE 4
 Ranges     == IF Q THEN {1, 2, 4} ELSE {1, 2, 3, 5}
-Steps      == IF Q THEN {0, 1, 3} ELSE {0, 1, 2, 3}
+Steps      == IF Q THEN {0, 1, 3} ELSE {0, 1, 2}
 Offsets    == IF Q THEN {0, 2} ELSE {-1, 0, 2}
 AtP(k, v)  == [k |-> k, v |-> v]
-Ats        == IF Q THEN {AtP("none", 0), AtP("lit", 4)} ELSE {AtP("none", 0), AtP("end", 0), AtP("start", 0), AtP("lit", 4)}
+Ats        == IF Q THEN {AtP("none", 0), AtP("lit", 4)} ELSE {AtP("none", 0), AtP("end", 0), AtP("lit", 4)}
 Starts     == IF Q THEN {2} ELSE {1, 4}
 NSteps     == IF Q THEN {4, 12} ELSE {3, 12, 23}
 \* "special": NaN and +/-Inf samples among the numbers (min/max_over_time skip NaN next to a number, sums are poisoned)
